@@ -41,7 +41,7 @@ def mutants(which):
                 delta = (8, -8, 2, -1)[(i + j) % 4]
                 yield ('capacity %s-%s %+d' % (vname(v), LV[lvl][-1], delta), 'consts', 'SYMBOL_CAPACITY[%d][%s] += %d' % (v, LV[lvl], delta), 'C04', vname(v))
     if 'ecc' in which:
-        for v, d in sorted(consts.ECC.items()):
+        for v, d in sorted(((k, x) for k, x in consts.ECC.items() if isinstance(k, int))):
             for lvl, groups in d.items():
                 if len(groups) == 2:
                     stmt = 'ECC[%d][%s] = (ECC[%d][%s][1], ECC[%d][%s][0])' % (v, LV[lvl], v, LV[lvl], v, LV[lvl])
